@@ -302,7 +302,7 @@ def rows : List Row := [
   ⟨0x39f5d1bf7c29c51b, "range|pkg/bondmachine/bondmachine.go|(*Bondmachine).Dot|subresult|1", ["concat"], .unproved "graphviz clusters are emitted in map order (-emit-dot, a drawing, not a build artefact)"⟩,
   ⟨0xdc40f339dbb4a34c, "range|pkg/bondmachine/bondmachine.go|(*Bondmachine).GetMultiAssembly|bmach.List_bonds()|0", ["append"], .unproved "List_bonds returns a map: bond list of the multi assembly in map order"⟩,
   ⟨0x1e7770f74c0402c6, "range|pkg/bondmachine/deferred.go|(*VM).ExecuteDeferredInstructions|vm.DeferredInstructions|0", ["calls", "keyed"], .offpath "simulation (deferred instructions of the VM), C09"⟩,
-  ⟨0xa9fcc41d1c5e8c87, "range|pkg/bondmachine/exmod_bmapi.go|(*BMAPIExtra).Get_Params|sl.Maps.Assoc|0", ["concat", "keyed"], .unproved "inputs / outputs comma lists of the bmapi extra module follow map order; consumers sort the keys (WriteVerilogBMAPI) but the lists themselves are emitted"⟩,
+  ⟨0xa9fcc41d1c5e8c87, "range|pkg/bondmachine/exmod_bmapi.go|(*BMAPIExtra).Get_Params|sl.Maps.Assoc|0", ["concat", "keyed"], .unproved "the inputs / outputs comma lists of the bmapi extra module are built in map order: every consumer has to sort before use. Write_verilog_board sorts them in place for aximm; for uartusb it did not (finding C07-bmapi-uartusb-port-order, repo_patches/C07-bmapi-uartusb-ports-sorted.diff); exercised by the create-verilog-bmapi-* jobs"⟩,
   ⟨0x9b528672e1e4d548, "range|pkg/bondmachine/exmod_bondirect.go|(*Bondirect_extra).ExtraFiles|wire2wireSenders|0", ["append"], .unproved "wire senders appended in map order; not exercised by the corpus (needs a bondirect cluster)"⟩,
   ⟨0x1e7df36d31b35351, "range|pkg/bondmachine/exmod_bondirect.go|(*Bondirect_extra).Get_Params|sl.Maps.Assoc|0", ["concat"], .unproved "comma lists of the extra module parameters follow map order of the io map; not exercised by the corpus (needs a cluster description)"⟩,
   ⟨0x106249185143d030, "range|pkg/bondmachine/exmod_bondirect.go|(*Bondirect_extra).Get_Params|sl.Maps.Assoc|1", ["concat"], .unproved "comma lists of the extra module parameters follow map order of the io map; not exercised by the corpus (needs a cluster description)"⟩,
